@@ -88,6 +88,28 @@ theorem periodic_ends (xs fs f2 : List Rat) (hn : 2 ≤ xs.length)
   field_simp at hs' ⊢
   linarith
 
+/-- **derivative-zero boundaries** (`splineDerivativeZero`, the rows `C06F.clampedF2` solves and the fit leg of the check uses): when
+    the two end rows hold, the first piece has zero slope at the first knot and the last piece zero slope at the last knot -/
+theorem clamped_rows_zero_slope (xs fs f2 : List Rat) (hn : 2 ≤ xs.length)
+    (h0 : nth xs 1 - nth xs 0 ≠ 0) (hl : nth xs (xs.length - 1) - nth xs (xs.length - 2) ≠ 0)
+    (r0 : (nth xs 1 - nth xs 0) / 3 * nth f2 0 + (nth xs 1 - nth xs 0) / 6 * nth f2 1 = (nth fs 1 - nth fs 0) / (nth xs 1 - nth xs 0))
+    (rn : (nth xs (xs.length - 1) - nth xs (xs.length - 2)) / 6 * nth f2 (xs.length - 2) +
+          (nth xs (xs.length - 1) - nth xs (xs.length - 2)) / 3 * nth f2 (xs.length - 1) =
+          -((nth fs (xs.length - 1) - nth fs (xs.length - 2)) / (nth xs (xs.length - 1) - nth xs (xs.length - 2)))) :
+    cubicDerivAt xs fs f2 0 (nth xs 0) = 0 ∧ cubicDerivAt xs fs f2 (xs.length - 2) (nth xs (xs.length - 1)) = 0 := by
+  have e1 : xs.length - 2 + 1 = xs.length - 1 := by omega
+  constructor
+  · unfold cubicDerivAt
+    simp only [Aprime, Bprime, Cprime, Dprime, zero_add]
+    have r0' := r0
+    field_simp at r0' ⊢
+    linarith
+  · unfold cubicDerivAt
+    simp only [e1, Aprime, Bprime, Cprime, Dprime]
+    have rn' := rn
+    field_simp at rn' ⊢
+    linarith
+
 /-- **straight lines.**  For affine data `f2 = 0` solves every interior row, and with `f2 = 0` the spline is that line on every
     piece — also outside the grid, where `getInterval` clamps to the first / last piece -/
 theorem line_row_residual (x0 x1 x2 a b : Rat) (h1 : x1 - x0 ≠ 0) (h2 : x2 - x1 ≠ 0) :
